@@ -1,0 +1,10 @@
+//go:build verif
+
+package reader
+
+import . "github.com/jig/lisp/types"
+
+// Tokenize exposes the tokenizer to the verification harness (build tag verif only).
+func Tokenize(sourceCode string, cursor *Position) ([]Token, error) {
+	return tokenize(sourceCode, cursor)
+}
